@@ -3,7 +3,7 @@ import copy
 
 from harness import fgen, gen, pools, rdriver
 
-MCR_CFG = '''SPECIFICATION Spec
+MCR_CFG = '''SPECIFICATION %s
 CONSTANTS MaxTok = %d  RawLen = %d
 CONSTANT Tables <- NoTables
 %s
@@ -11,10 +11,10 @@ CHECK_DEADLOCK FALSE
 '''
 
 
-def mc_reader(run, invariants, props=('Progress',), quick=(3, 0), thorough=(4, 5)):
+def mc_reader(run, invariants, props=('Progress',), quick=(3, 0), thorough=(4, 5), fair=False):
     mt, rl = quick if run.tier == 'quick' else thorough
     inv = ''.join('INVARIANT %s\n' % i for i in invariants) + ''.join('PROPERTY %s\n' % p for p in props)
-    run.mc('MC_Reader', MCR_CFG % (mt, rl, inv), xmx='10g', timeout=3000,
+    run.mc('MC_Reader', MCR_CFG % ('FairSpec' if fair else 'Spec', mt, rl, inv), xmx='10g', timeout=3000,
            note='stepwise Reader.tla over all files of <= %d tokens%s' % (mt, (' and all byte strings <= %d' % rl) if rl else ''))
 
 
